@@ -147,3 +147,19 @@ def bits_and_ring(rng, q=3, nstoch=3):
         for a in range(2):
             u["pk"][s][a] = [1, 1]
     return T.union_mdp([r, u], rng, plain_render=True)
+
+
+def int_valued_pol0(rng, m):
+    """If the rendering has float-valued actions, choose the supplied initial policy among the actions whose vectors
+    are whole numbers and let the problem return them as an integer array (render.pol0_as_int)."""
+    r = m["render"]
+    if int(r.get("adiv", 1)) not in (2, 4):
+        r["adiv"], r["aoffset"] = rng.choice([2, 4]), 0          # make the action space float-valued (half / quarter units)
+    adiv = int(r["adiv"])
+    whole = [a for a, v in enumerate(r["avecs"]) if all((x + int(r.get("aoffset", 0))) % adiv == 0 for x in v)]
+    if not whole:
+        return False
+    m["pol0"] = [rng.choice(whole) for _ in range(m["ns"])]
+    r["has_init_policy"] = True
+    r["pol0_as_int"] = True
+    return True
